@@ -4,7 +4,7 @@
   indices), the live blocks are exactly the blocks held by the registers, no block is freed twice,
   and after `fini` of every register nothing is live.
 -/
-import Pixman.Lemmas.RegionAllocOwn
+import Pixman.Lemmas.RegionAllocValidate
 namespace Pixman.Model.RegionAlloc
 open Pixman.Region
 
@@ -17,13 +17,19 @@ inductive Cmd where
   | intersectRect (d a : Nat) (x y : Int) (w h : Nat)
   | copy (d a : Nat)
   | fini (d : Nat)            -- pixman_region_fini followed by pixman_region_init
+  | initRects (d : Nat) (boxes : List Box)                 -- fini, then init_rects into the storage (validate inside)
+  | translate (d : Nat) (dx dy : Int)                      -- may re-validate
+  | fromImage (d : Nat) (w : Nat) (rows : List (List Bool))  -- fini, then init_from_image
+  | to16 (d a : Nat)          -- pixman_region16_copy_from_region32
+  | to32 (d a : Nat)          -- pixman_region32_copy_from_region16
 deriving Repr
 
 def aliasOf (d a b : Nat) : Alias := if d = a then .first else if d = b then .second else .none
 
 def Cmd.dest : Cmd → Nat
   | .union d _ _ | .intersect d _ _ | .subtract d _ _ | .inverse d _ _ | .unionRect d _ _ _ _ _
-  | .intersectRect d _ _ _ _ _ | .copy d _ | .fini d => d
+  | .intersectRect d _ _ _ _ _ | .copy d _ | .fini d | .initRects d _ | .translate d _ _
+  | .fromImage d _ _ | .to16 d _ | .to32 d _ => d
 
 /-- the new value of the destination register and the heap -/
 def evalCmd (c : Cfg) (s : Sched) (st : List RegionA) (h : Heap) : Cmd → RegionA × Heap
@@ -49,6 +55,17 @@ def evalCmd (c : Cfg) (s : Sched) (st : List RegionA) (h : Heap) : Cmd → Regio
     let r := copyA c s (d == a) (st.getD d initA) (st.getD a initA) h
     (r.2.1, r.2.2)
   | .fini d => (initA, finiA (st.getD d initA) h)
+  | .initRects d boxes =>
+    let r := initRectsA c s boxes (finiA (st.getD d initA) h)
+    (r.2.1, r.2.2)
+  | .translate d dx dy => translateA c s (st.getD d initA) dx dy h
+  | .fromImage d w rows => initFromImageA c s w rows (finiA (st.getD d initA) h)
+  | .to16 d a =>
+    let r := region16From32A s (st.getD d initA) (st.getD a initA) h
+    (r.2.1, r.2.2)
+  | .to32 d a =>
+    let r := region32From16A s (st.getD d initA) (st.getD a initA) h
+    (r.2.1, r.2.2)
 
 def stepCmd (c : Cfg) (s : Sched) (st : List RegionA) (h : Heap) (cmd : Cmd) : List RegionA × Heap :=
   if cmd.dest < st.length then
@@ -66,9 +83,6 @@ def finiAllA : List RegionA → Heap → Heap
   | [], h => h
   | r :: t, h => finiAllA t (finiA r h)
 
-@[simp] theorem regIds_nil : regIds [] = [] := rfl
-@[simp] theorem regIds_cons (x : RegionA) (t : List RegionA) : regIds (x :: t) = x.ids ++ regIds t := by
-  simp [regIds]
 
 theorem regIds_split : ∀ (st : List RegionA) (d : Nat), d < st.length →
     (regIds st).Perm ((st.getD d initA).ids ++ regIds (st.eraseIdx d))
@@ -100,6 +114,11 @@ theorem Own.evalCmd {c : Cfg} {s : Sched} {st : List RegionA} {h : Heap} {rest :
   · exact o.intersectRectA
   · exact o.copyA
   · exact o.finiA
+  · exact initRectsA_own c s _ _ o.finiA
+  · exact translateA_own c s _ _ _ h o
+  · exact initFromImageA_own c s _ _ _ o.finiA
+  · exact region16From32A_own s _ _ h o
+  · exact region32From16A_own s _ _ h o
 
 theorem Own.stepCmd {c : Cfg} {s : Sched} {st : List RegionA} {h : Heap} (cmd : Cmd)
     (o : Own h (regIds st)) :
